@@ -80,6 +80,8 @@ def sly_names(rhs):
 
 def run(ctx, rep):
     ix, T = ctx.ix, ctx.typer
+    from .common import check_falsy_zero
+    check_falsy_zero(ctx, rep, "C02.6", ['jaqalpaq.parser.slyparse', 'jaqalpaq.core.circuitbuilder'], floor_positions=10)
     for a in SLY_ASSUMPTIONS:
         rep.assume(a)
     rep.assume("sly parser: the action of a production receives the RHS values as tree.<symbol> / tree[i]; sly calls Parser.error(None) at end of input")
